@@ -1,5 +1,979 @@
-(* C16 — lemmas (placeholder, filled below) *)
+(* C16 — lemmas about the model in Model.v *)
 From Coq Require Import ZArith List Bool Lia.
 From FV Require Import C16.Model.
 Import ListNotations.
 Open Scope Z_scope.
+Ltac Zify.zify_post_hook ::= Z.div_mod_to_equations.
+
+(* ================================================================================================ *)
+(* binary search (core::slice::binary_search_by) *)
+
+Lemma bs_loop_range cmp : forall fuel base size, 1 <= size ->
+  base <= bs_loop fuel cmp base size < base + size.
+Proof.
+  induction fuel; intros base size H; cbn [bs_loop]; [lia|].
+  destruct (1 <? size) eqn:E; [apply Z.ltb_lt in E | lia].
+  assert (H2 : 1 <= size / 2 <= size - 1) by lia.
+  destruct (cmp (base + size / 2)).
+  - specialize (IHfuel (base + size / 2) (size - size / 2)). lia.
+  - specialize (IHfuel (base + size / 2) (size - size / 2)). lia.
+  - specialize (IHfuel base (size - size / 2)). lia.
+Qed.
+
+Lemma bs_loop_found cmp i0 len :
+  (forall i, 0 <= i < i0 -> cmp i = Lt) -> cmp i0 = Eq -> (forall i, i0 < i < len -> cmp i = Gt) ->
+  forall fuel base size, 0 <= base -> base <= i0 < base + size -> base + size <= len ->
+    size <= Z.of_nat fuel + 1 -> bs_loop fuel cmp base size = i0.
+Proof.
+  intros HL HE HG. induction fuel; intros base size Hb Hi Hlen Hf; cbn [bs_loop]; [lia|].
+  destruct (1 <? size) eqn:E; [apply Z.ltb_lt in E | apply Z.ltb_ge in E; lia].
+  assert (H2 : 1 <= size / 2 /\ 2 * (size / 2) <= size) by lia.
+  destruct (Z_lt_le_dec i0 (base + size / 2)).
+  - rewrite (HG (base + size / 2)) by lia. apply IHfuel; lia.
+  - destruct (Z.eq_dec i0 (base + size / 2)) as [e|ne].
+    + rewrite <- e, HE. apply IHfuel; lia.
+    + rewrite (HL (base + size / 2)) by lia. apply IHfuel; lia.
+Qed.
+
+Lemma bsearch_found cmp len i0 : 0 <= i0 < len ->
+  (forall i, 0 <= i < i0 -> cmp i = Lt) -> cmp i0 = Eq -> (forall i, i0 < i < len -> cmp i = Gt) ->
+  bsearch_by cmp len = BOk i0.
+Proof.
+  intros Hr HL HE HG. unfold bsearch_by.
+  destruct (len <=? 0) eqn:E; [apply Z.leb_le in E; lia|].
+  rewrite (bs_loop_found cmp i0 len HL HE HG) by lia. now rewrite HE.
+Qed.
+
+Lemma bsearch_ok_sound cmp len i : bsearch_by cmp len = BOk i -> cmp i = Eq /\ 0 <= i < len.
+Proof.
+  unfold bsearch_by. destruct (len <=? 0) eqn:E; [discriminate|]. apply Z.leb_gt in E.
+  pose proof (bs_loop_range cmp (Z.to_nat len) 0 len ltac:(lia)) as R.
+  destruct (cmp (bs_loop (Z.to_nat len) cmp 0 len)) eqn:C; intros H; inversion H; subst. split; [exact C | lia].
+Qed.
+
+Lemma bs_loop_split cmp k len :
+  (forall i, 0 <= i < k -> cmp i = Lt) -> (forall i, k <= i < len -> cmp i = Gt) ->
+  forall fuel base size, 0 <= base -> 1 <= size -> (base = 0 \/ base < k) -> k <= base + size ->
+    base + size <= len -> size <= Z.of_nat fuel + 1 ->
+    (bs_loop fuel cmp base size = 0 \/ bs_loop fuel cmp base size < k) /\ k <= bs_loop fuel cmp base size + 1.
+Proof.
+  intros HL HG. induction fuel; intros base size Hb Hs Hk Hk2 Hlen Hf; cbn [bs_loop]; [lia|].
+  destruct (1 <? size) eqn:E; [apply Z.ltb_lt in E | apply Z.ltb_ge in E; lia].
+  assert (H2 : 1 <= size / 2 /\ 2 * (size / 2) <= size) by lia.
+  destruct (Z_lt_le_dec (base + size / 2) k).
+  - rewrite (HL (base + size / 2)) by lia. apply IHfuel; lia.
+  - rewrite (HG (base + size / 2)) by lia. apply IHfuel; lia.
+Qed.
+
+Lemma bsearch_err cmp len k : 0 <= k <= len ->
+  (forall i, 0 <= i < k -> cmp i = Lt) -> (forall i, k <= i < len -> cmp i = Gt) ->
+  bsearch_by cmp len = BErr k.
+Proof.
+  intros Hr HL HG. unfold bsearch_by.
+  destruct (len <=? 0) eqn:E; [apply Z.leb_le in E; f_equal; lia | apply Z.leb_gt in E].
+  pose proof (bs_loop_range cmp (Z.to_nat len) 0 len ltac:(lia)) as R.
+  pose proof (bs_loop_split cmp k len HL HG (Z.to_nat len) 0 len) as S.
+  specialize (S ltac:(lia) ltac:(lia) ltac:(lia) ltac:(lia) ltac:(lia) ltac:(lia)).
+  set (r := bs_loop (Z.to_nat len) cmp 0 len) in *.
+  destruct (Z_lt_le_dec r k).
+  - rewrite (HL r) by lia. f_equal. lia.
+  - rewrite (HG r) by lia. f_equal. lia.
+Qed.
+
+(* ================================================================================================ *)
+(* lists, strict sortedness, index_of *)
+
+Lemma zlen_cons {A} (x : A) l : zlen (x :: l) = zlen l + 1.
+Proof. unfold zlen. cbn [length]. lia. Qed.
+Lemma zlen_nonneg {A} (l : list A) : 0 <= zlen l.
+Proof. unfold zlen. lia. Qed.
+Lemma znth_cons_succ {A} (x : A) l i d : 0 <= i -> znth (x :: l) (i + 1) d = znth l i d.
+Proof. intros. unfold znth. replace (Z.to_nat (i + 1)) with (S (Z.to_nat i)) by lia. reflexivity. Qed.
+Lemma znth_cons_0 {A} (x : A) l d : znth (x :: l) 0 d = x.
+Proof. reflexivity. Qed.
+Lemma znth_In {A} (l : list A) i d : 0 <= i < zlen l -> In (znth l i d) l.
+Proof. intros. unfold znth, zlen in *. apply nth_In. lia. Qed.
+Lemma In_znth {A} (l : list A) x d : In x l -> exists i, 0 <= i < zlen l /\ znth l i d = x.
+Proof.
+  intros H. destruct (In_nth l x d H) as [n [Hn Hx]]. exists (Z.of_nat n). unfold znth, zlen.
+  rewrite Nat2Z.id. split; [lia | exact Hx].
+Qed.
+Lemma znth_error_some {A} (l : list A) i d : 0 <= i < zlen l -> znth_error l i = Some (znth l i d).
+Proof.
+  intros H. unfold znth_error, znth, zlen in *. destruct (i <? 0) eqn:E; [apply Z.ltb_lt in E; lia|].
+  apply nth_error_nth'. lia.
+Qed.
+Lemma znth_error_none {A} (l : list A) i : i < 0 \/ zlen l <= i -> znth_error l i = None.
+Proof.
+  intros H. unfold znth_error, zlen in *. destruct (i <? 0) eqn:E; [reflexivity|]. apply Z.ltb_ge in E.
+  apply nth_error_None. lia.
+Qed.
+
+Fixpoint ssorted (l : list Z) : Prop :=
+  match l with [] => True | x :: r => Forall (Z.lt x) r /\ ssorted r end.
+
+Lemma ssorted_nth_lt l : ssorted l -> forall i j, (i < j < length l)%nat -> nth i l 0 < nth j l 0.
+Proof.
+  induction l as [|x r IH]; intros S i j H; cbn in *; [lia|].
+  destruct S as [F S]. destruct j; [lia|]. destruct i.
+  - rewrite Forall_forall in F. apply F. apply nth_In. lia.
+  - apply IH; [exact S | lia].
+Qed.
+Lemma ssorted_znth_lt l i j : ssorted l -> 0 <= i < j -> j < zlen l -> znth l i 0 < znth l j 0.
+Proof. intros S H1 H2. unfold znth, zlen in *. apply ssorted_nth_lt; [exact S | lia]. Qed.
+
+Lemma index_of_some g l i : index_of g l = Some i -> 0 <= i < zlen l /\ znth l i 0 = g.
+Proof.
+  revert i. induction l as [|x r IH]; intros i H; cbn [index_of] in H; [discriminate|].
+  rewrite zlen_cons. pose proof (zlen_nonneg r).
+  destruct (x =? g) eqn:E.
+  - inversion H; subst. apply Z.eqb_eq in E. split; [lia | exact E].
+  - destruct (index_of g r) as [z|]; cbn in H; inversion H; subst.
+    destruct (IH z eq_refl) as [R N]. split; [lia|].
+    unfold Z.succ. rewrite znth_cons_succ by lia. exact N.
+Qed.
+Lemma index_of_none g l : index_of g l = None -> ~ In g l.
+Proof.
+  induction l as [|x r IH]; intros H; cbn [index_of] in H; [intros []|].
+  destruct (x =? g) eqn:E; [discriminate|]. apply Z.eqb_neq in E.
+  destruct (index_of g r); [discriminate|]. intros [?|?]; [congruence | now apply IH].
+Qed.
+Lemma index_of_in g l : In g l -> exists i, index_of g l = Some i.
+Proof.
+  intros H. destruct (index_of g l) eqn:E; [eauto|]. apply index_of_none in E. contradiction.
+Qed.
+
+(* ---- sort_dedup ---- *)
+Lemma insert_dedup_in x l y : In y (insert_dedup x l) <-> y = x \/ In y l.
+Proof.
+  induction l as [|z r IH]; cbn [insert_dedup].
+  - cbn. intuition.
+  - destruct (x <? z) eqn:E1; [cbn; intuition|]. destruct (x =? z) eqn:E2.
+    + apply Z.eqb_eq in E2. subst. cbn. intuition.
+    + cbn. rewrite IH. intuition.
+Qed.
+Lemma insert_dedup_sorted x l : ssorted l -> ssorted (insert_dedup x l).
+Proof.
+  induction l as [|z r IH]; intros S; cbn [insert_dedup].
+  - cbn. auto.
+  - destruct S as [F S]. destruct (x <? z) eqn:E1.
+    + apply Z.ltb_lt in E1. cbn. repeat split; auto. constructor; [exact E1|].
+      eapply Forall_impl; [|exact F]. intros; lia.
+    + apply Z.ltb_ge in E1. destruct (x =? z) eqn:E2; [cbn; auto|]. apply Z.eqb_neq in E2.
+      cbn. split; [|auto]. rewrite Forall_forall in *. intros y Hy. apply insert_dedup_in in Hy.
+      destruct Hy; [lia | auto].
+Qed.
+Lemma sort_dedup_sorted l : ssorted (sort_dedup l).
+Proof. induction l; cbn; [auto | now apply insert_dedup_sorted]. Qed.
+Lemma sort_dedup_in l y : In y (sort_dedup l) <-> In y l.
+Proof. induction l; cbn; [tauto|]. rewrite insert_dedup_in, IHl. intuition. Qed.
+
+Lemma ssorted_bounded_length l lo hi : ssorted l -> Forall (fun g => lo <= g <= hi) l -> zlen l <= Z.max 0 (hi - lo + 1).
+Proof.
+  revert lo. induction l as [|x r IH]; intros lo S F; [unfold zlen; cbn; lia|].
+  destruct S as [Fx S]. inversion F; subst. rewrite zlen_cons.
+  assert (Fr : Forall (fun g => x + 1 <= g <= hi) r).
+  { rewrite Forall_forall in *. intros y Hy. specialize (Fx y Hy). specialize (H2 y Hy). lia. }
+  specialize (IH (x + 1) S Fr). lia.
+Qed.
+
+(* ================================================================================================ *)
+(* CoverageFormat1 *)
+Definition gres_of (o : option Z) : gres := match o with Some i => GSome i | None => GNone end.
+
+Lemma cov1_get_spec l g : ssorted l -> cov1_get l g = gres_of (index_of g l).
+Proof.
+  intros S. unfold cov1_get. destruct (index_of g l) as [i0|] eqn:E; cbn [gres_of].
+  - apply index_of_some in E as [R N].
+    rewrite (bsearch_found _ _ i0); [reflexivity | exact R | | | ].
+    + intros i Hi. apply Z.compare_lt_iff. rewrite <- N. apply ssorted_znth_lt; [exact S | lia | lia].
+    + rewrite N. apply Z.compare_refl.
+    + intros i Hi. apply Z.compare_gt_iff. rewrite <- N. apply ssorted_znth_lt; [exact S | lia | lia].
+  - destruct (bsearch_by _ _) eqn:B; [|reflexivity].
+    apply bsearch_ok_sound in B as [C R]. apply Z.compare_eq in C.
+    apply index_of_none in E. exfalso. apply E. rewrite <- C. apply znth_In. exact R.
+Qed.
+
+(* ================================================================================================ *)
+(* range lists (coverage format 2 and classdef format 2 share the record shape) *)
+
+(* ranges are non-empty, increasing and disjoint; [lo] is a strict lower bound for the first start *)
+Fixpoint rs_sorted (lo : Z) (rs : list rrec) : Prop :=
+  match rs with [] => True | (s, e, _) :: r => lo < s /\ s <= e /\ rs_sorted e r end.
+(* first range containing g, evaluated by [val] *)
+Fixpoint rfind (val : rrec -> Z -> Z) (rs : list rrec) (g : Z) : option Z :=
+  match rs with
+  | [] => None
+  | (s, e, x) :: r => if (s <=? g) && (g <=? e) then Some (val (s, e, x) g) else rfind val r g
+  end.
+Definition cov_val (r : rrec) (g : Z) : Z := let '(s, _, ci) := r in ci + (g - s).
+Definition cls_val (r : rrec) (g : Z) : Z := let '(_, _, c) := r in c.
+
+Lemma rs_sorted_weaken lo lo' rs : lo' <= lo -> rs_sorted lo rs -> rs_sorted lo' rs.
+Proof. destruct rs as [|[[s e] x] r]; cbn; [auto|]. intros; intuition lia. Qed.
+
+Lemma rfind_below val lo rs g : rs_sorted lo rs -> g <= lo -> rfind val rs g = None.
+Proof.
+  revert lo. induction rs as [|[[s e] x] r IH]; intros lo S H; cbn [rfind]; [reflexivity|].
+  destruct S as [A [B C]]. replace (s <=? g) with false by (symmetry; apply Z.leb_gt; lia). cbn.
+  apply (IH e C). lia.
+Qed.
+
+(* nth-based view of a sorted range list *)
+Lemma rs_sorted_nth lo rs : rs_sorted lo rs -> forall i, 0 <= i < zlen rs ->
+  let '(s, e, _) := znth rs i (0, 0, 0) in lo < s /\ s <= e.
+Proof.
+  revert lo. induction rs as [|[[s e] x] r IH]; intros lo S i Hi; [unfold zlen in Hi; cbn in Hi; lia|].
+  destruct S as [A [B C]]. rewrite zlen_cons in Hi. destruct (Z.eq_dec i 0) as [->|ne].
+  - cbn. lia.
+  - replace i with ((i - 1) + 1) by lia. rewrite znth_cons_succ by lia.
+    specialize (IH e C (i - 1) ltac:(lia)). destruct (znth r (i - 1) (0, 0, 0)) as [[s' e'] x']. lia.
+Qed.
+Lemma rs_sorted_nth_lt lo rs : rs_sorted lo rs -> forall i j, 0 <= i < j -> j < zlen rs ->
+  snd (fst (znth rs i (0, 0, 0))) < fst (fst (znth rs j (0, 0, 0))).
+Proof.
+  revert lo. induction rs as [|[[s e] x] r IH]; intros lo S i j Hi Hj; [unfold zlen in Hj; cbn in Hj; lia|].
+  destruct S as [A [B C]]. rewrite zlen_cons in Hj.
+  replace j with ((j - 1) + 1) by lia. rewrite znth_cons_succ by lia.
+  destruct (Z.eq_dec i 0) as [->|ne].
+  - cbn [znth Z.to_nat nth fst snd].
+    pose proof (rs_sorted_nth e r C (j - 1) ltac:(lia)) as N.
+    destruct (znth r (j - 1) (0, 0, 0)) as [[s' e'] x']. cbn. lia.
+  - replace i with ((i - 1) + 1) by lia. rewrite znth_cons_succ by lia. apply (IH e C); lia.
+Qed.
+
+Lemma rfind_nth val lo rs g i : rs_sorted lo rs -> 0 <= i < zlen rs ->
+  (let '(s, e, _) := znth rs i (0, 0, 0) in s <= g <= e) ->
+  rfind val rs g = Some (val (znth rs i (0, 0, 0)) g).
+Proof.
+  revert lo i. induction rs as [|[[s e] x] r IH]; intros lo i S Hi Hc; [unfold zlen in Hi; cbn in Hi; lia|].
+  destruct S as [A [B C]]. rewrite zlen_cons in Hi. cbn [rfind].
+  destruct (Z.eq_dec i 0) as [->|ne].
+  - cbn in Hc. replace (s <=? g) with true by (symmetry; apply Z.leb_le; lia).
+    replace (g <=? e) with true by (symmetry; apply Z.leb_le; lia). reflexivity.
+  - revert Hc. replace i with ((i - 1) + 1) by lia. rewrite znth_cons_succ by lia. intros Hc.
+    pose proof (rs_sorted_nth e r C (i - 1) ltac:(lia)) as N.
+    destruct (znth r (i - 1) (0, 0, 0)) as [[s' e'] x'] eqn:Z.
+    replace (g <=? e) with false by (symmetry; apply Z.leb_gt; lia). rewrite andb_false_r.
+    rewrite <- Z. apply (IH e (i - 1) C); [lia|]. rewrite Z. exact Hc.
+Qed.
+Lemma rfind_none_nth val rs g : rfind val rs g = None -> forall i, 0 <= i < zlen rs ->
+  let '(s, e, _) := znth rs i (0, 0, 0) in ~ (s <= g <= e).
+Proof.
+  induction rs as [|[[s e] x] r IH]; intros H i Hi; [unfold zlen in Hi; cbn in Hi; lia|].
+  cbn [rfind] in H. rewrite zlen_cons in Hi.
+  destruct ((s <=? g) && (g <=? e)) eqn:E; [discriminate|].
+  destruct (Z.eq_dec i 0) as [->|ne].
+  - cbn. intros [P Q]. apply Z.leb_le in P, Q. rewrite P, Q in E. discriminate.
+  - replace i with ((i - 1) + 1) by lia. rewrite znth_cons_succ by lia. apply IH; [exact H | lia].
+Qed.
+Lemma rfind_some_nth val rs g v : rfind val rs g = Some v -> exists i, 0 <= i < zlen rs /\
+  (let '(s, e, _) := znth rs i (0, 0, 0) in s <= g <= e) /\ v = val (znth rs i (0, 0, 0)) g.
+Proof.
+  revert v. induction rs as [|[[s e] x] r IH]; intros v H; cbn [rfind] in H; [discriminate|].
+  rewrite zlen_cons. pose proof (zlen_nonneg r).
+  destruct ((s <=? g) && (g <=? e)) eqn:E.
+  - inversion H; subst. exists 0. apply andb_true_iff in E as [P Q]. apply Z.leb_le in P, Q. cbn. repeat split; lia.
+  - destruct (IH v H) as [i [Hi [Hc Hv]]]. exists (i + 1). rewrite znth_cons_succ by lia. repeat split; auto; lia.
+Qed.
+
+(* CoverageFormat2::get on a sorted range list = the linear specification *)
+Lemma cov2_get_rfind strict lo rs g : rs_sorted lo rs ->
+  cov2_get strict rs g =
+  match rfind cov_val rs g with
+  | Some k => if strict && (65535 <? k) then GPanic else GSome (wrap16 k)
+  | None => GNone
+  end.
+Proof.
+  intros S. unfold cov2_get. destruct (rfind cov_val rs g) as [k|] eqn:E.
+  - apply rfind_some_nth in E as [i0 [R [C V]]].
+    rewrite (bsearch_found _ _ i0); [ | exact R | | | ].
+    + destruct (znth rs i0 (0, 0, 0)) as [[s e] ci]. cbn in V. subst k. reflexivity.
+    + intros i Hi. pose proof (rs_sorted_nth_lt lo rs S i i0 ltac:(lia) ltac:(lia)) as L.
+      destruct (znth rs i0 (0, 0, 0)) as [[s0 e0] c0]. destruct (znth rs i (0, 0, 0)) as [[s e] c].
+      cbn in *. replace (e <? g) with true by (symmetry; apply Z.ltb_lt; lia). reflexivity.
+    + destruct (znth rs i0 (0, 0, 0)) as [[s0 e0] c0]. cbn.
+      replace (e0 <? g) with false by (symmetry; apply Z.ltb_ge; lia).
+      replace (g <? s0) with false by (symmetry; apply Z.ltb_ge; lia). reflexivity.
+    + intros i Hi. pose proof (rs_sorted_nth_lt lo rs S i0 i ltac:(lia) ltac:(lia)) as L.
+      pose proof (rs_sorted_nth lo rs S i ltac:(lia)) as N.
+      destruct (znth rs i0 (0, 0, 0)) as [[s0 e0] c0]. destruct (znth rs i (0, 0, 0)) as [[s e] c].
+      cbn in *. replace (e <? g) with false by (symmetry; apply Z.ltb_ge; lia).
+      replace (g <? s) with true by (symmetry; apply Z.ltb_lt; lia). reflexivity.
+  - destruct (bsearch_by _ _) eqn:B; [|reflexivity].
+    apply bsearch_ok_sound in B as [C R].
+    pose proof (rfind_none_nth _ _ _ E i R) as N.
+    destruct (znth rs i (0, 0, 0)) as [[s e] c]. cbn in C. exfalso. apply N.
+    destruct (e <? g) eqn:P; [discriminate|]. destruct (g <? s) eqn:Q; [discriminate|].
+    apply Z.ltb_ge in P, Q. lia.
+Qed.
+
+(* RangeRecord::iter_for_glyphs: the linear reading of the produced ranges is the index in the glyph list *)
+Lemma are_sequential_spec a b : are_sequential a b = true <-> b = a + 1.
+Proof. unfold are_sequential, sat_sub. rewrite Z.eqb_eq. lia. Qed.
+
+Lemma ranges_go_rfind l : forall a b len g, a <= b ->
+  rfind cov_val (ranges_go a b len l) g =
+  if (a <=? g) && (g <=? b) then Some (len + (g - a))
+  else option_map (fun i => len + (b - a + 1) + i) (index_of g l).
+Proof.
+  induction l as [|x r IH]; intros a b len g H; cbn [ranges_go].
+  - cbn. destruct ((a <=? g) && (g <=? b)); reflexivity.
+  - destruct (are_sequential b x) eqn:E.
+    + apply are_sequential_spec in E. subst x. rewrite IH by lia. cbn [index_of].
+      destruct (Z.eq_dec g (b + 1)) as [->|ne].
+      * rewrite Z.eqb_refl. replace (a <=? b + 1) with true by (symmetry; apply Z.leb_le; lia).
+        rewrite Z.leb_refl. replace (b + 1 <=? b) with false by (symmetry; apply Z.leb_gt; lia).
+        rewrite andb_false_r. cbn. f_equal. lia.
+      * replace (b + 1 =? g) with false by (symmetry; apply Z.eqb_neq; lia).
+        destruct (a <=? g) eqn:P; cbn [andb].
+        -- destruct (g <=? b) eqn:Q.
+           ++ apply Z.leb_le in Q. replace (g <=? b + 1) with true by (symmetry; apply Z.leb_le; lia). reflexivity.
+           ++ apply Z.leb_gt in Q. replace (g <=? b + 1) with false by (symmetry; apply Z.leb_gt; lia).
+              destruct (index_of g r); cbn; [f_equal; lia | reflexivity].
+        -- destruct (index_of g r); cbn; [f_equal; lia | reflexivity].
+    + cbn [rfind]. destruct ((a <=? g) && (g <=? b)) eqn:P; [reflexivity|].
+      rewrite IH by lia. cbn [index_of]. unfold sat_sub.
+      destruct (Z.eq_dec x g) as [->|ne].
+      * rewrite Z.eqb_refl, Z.leb_refl. cbn. f_equal. lia.
+      * replace (x =? g) with false by (symmetry; apply Z.eqb_neq; lia).
+        replace ((x <=? g) && (g <=? x)) with false by (symmetry; apply andb_false_iff; rewrite !Z.leb_gt; lia).
+        destruct (index_of g r); cbn; [f_equal; lia | reflexivity].
+Qed.
+
+Lemma ranges_for_glyphs_rfind l g : rfind cov_val (ranges_for_glyphs l) g = index_of g l.
+Proof.
+  destruct l as [|x r]; [reflexivity|]. cbn [ranges_for_glyphs]. rewrite ranges_go_rfind by lia.
+  cbn [index_of]. destruct (Z.eq_dec x g) as [->|ne].
+  - rewrite Z.eqb_refl, Z.leb_refl. cbn. f_equal. lia.
+  - replace (x =? g) with false by (symmetry; apply Z.eqb_neq; lia).
+    replace ((x <=? g) && (g <=? x)) with false by (symmetry; apply andb_false_iff; rewrite !Z.leb_gt; lia).
+    destruct (index_of g r); cbn; [f_equal; lia | reflexivity].
+Qed.
+
+Lemma ranges_go_sorted l : forall lo a b len, lo < a -> a <= b -> Forall (Z.lt b) l -> ssorted l ->
+  rs_sorted lo (ranges_go a b len l).
+Proof.
+  induction l as [|x r IH]; intros lo a b len H1 H2 F S; cbn [ranges_go].
+  - cbn. lia.
+  - inversion F; subst. destruct S as [Fx S]. destruct (are_sequential b x) eqn:E.
+    + apply IH; auto; lia.
+    + cbn. repeat split; try lia. apply IH; auto; lia.
+Qed.
+Lemma ranges_for_glyphs_sorted l lo : ssorted l -> Forall (Z.lt lo) l -> rs_sorted lo (ranges_for_glyphs l).
+Proof.
+  destruct l as [|x r]; [cbn; auto|]. intros [F S] L. inversion L; subst.
+  cbn [ranges_for_glyphs]. apply ranges_go_sorted; auto; lia.
+Qed.
+
+(* ================================================================================================ *)
+(* coverage_get_spec *)
+Definition u16 (g : Z) : Prop := 0 <= g <= 65535.
+
+Lemma index_of_sorted_u16_bound l g i : ssorted l -> Forall u16 l -> index_of g l = Some i -> 0 <= i <= 65535.
+Proof.
+  intros S F E. apply index_of_some in E as [R _].
+  pose proof (ssorted_bounded_length l 0 65535 S F). lia.
+Qed.
+
+Lemma sort_dedup_u16 G : Forall u16 G -> Forall u16 (sort_dedup G).
+Proof. intros F. rewrite Forall_forall in *. intros x Hx. apply F. now apply sort_dedup_in. Qed.
+
+Lemma cov_get_build_fmt G g fmt2 strict : Forall u16 G ->
+  cov_get strict (cov_build_fmt fmt2 G) g = gres_of (index_of g (sort_dedup G)).
+Proof.
+  intros F. pose proof (sort_dedup_sorted G) as S. pose proof (sort_dedup_u16 G F) as U.
+  unfold cov_build_fmt. destruct fmt2; cbn [cov_get].
+  - rewrite (cov2_get_rfind strict (-1)).
+    + rewrite ranges_for_glyphs_rfind. destruct (index_of g (sort_dedup G)) as [i|] eqn:E; [|reflexivity].
+      pose proof (index_of_sorted_u16_bound _ _ _ S U E) as B.
+      replace (65535 <? i) with false by (symmetry; apply Z.ltb_ge; lia). rewrite andb_false_r.
+      unfold wrap16. rewrite Z.mod_small by lia. reflexivity.
+    + apply ranges_for_glyphs_sorted; [exact S|]. eapply Forall_impl; [|exact U]. unfold u16. intros; lia.
+  - apply cov1_get_spec. exact S.
+Qed.
+
+Lemma cov_get_build G g strict : Forall u16 G ->
+  cov_get strict (cov_build G) g = gres_of (index_of g (sort_dedup G)).
+Proof. intros F. unfold cov_build. now apply cov_get_build_fmt. Qed.
+
+Lemma cov_format_choice_irrelevant G g fmt2 strict : Forall u16 G ->
+  cov_get strict (cov_build G) g = cov_get strict (cov_build_fmt fmt2 G) g.
+Proof. intros F. rewrite cov_get_build, cov_get_build_fmt; auto. Qed.
+
+Lemma cov_membership G g strict : Forall u16 G ->
+  (cov_get strict (cov_build G) g = GNone <-> ~ In g G) /\
+  (forall i, cov_get strict (cov_build G) g = GSome i -> In g G).
+Proof.
+  intros F. rewrite cov_get_build by exact F. split; [split|].
+  - destruct (index_of g (sort_dedup G)) eqn:E; cbn; [discriminate|]. intros _ H.
+    apply index_of_none in E. apply E. now apply sort_dedup_in.
+  - intros H. destruct (index_of g (sort_dedup G)) eqn:E; cbn; [|reflexivity].
+    apply index_of_some in E as [R N]. exfalso. apply H. apply sort_dedup_in. rewrite <- N. now apply znth_In.
+  - intros i H. destruct (index_of g (sort_dedup G)) eqn:E; cbn in H; [|discriminate].
+    apply index_of_some in E as [R N]. apply sort_dedup_in. rewrite <- N. now apply znth_In.
+Qed.
+
+(* ================================================================================================ *)
+(* class definitions *)
+Definition ksorted (m : list (Z * Z)) : Prop := ssorted (map fst m).
+
+Lemma assoc_map_insert g k v m : assoc g (map_insert k v m) = if k =? g then Some v else assoc g m.
+Proof.
+  induction m as [|[k' v'] r IH]; cbn [map_insert assoc]; [reflexivity|].
+  destruct (k <? k') eqn:E1; [reflexivity|]. apply Z.ltb_ge in E1.
+  destruct (k =? k') eqn:E2.
+  - apply Z.eqb_eq in E2. subst k'. cbn [assoc]. destruct (k =? g); reflexivity.
+  - apply Z.eqb_neq in E2. cbn [assoc]. rewrite IH. destruct (k' =? g) eqn:E3; [|reflexivity].
+    apply Z.eqb_eq in E3. subst. replace (k =? g) with false by (symmetry; apply Z.eqb_neq; lia). reflexivity.
+Qed.
+Lemma map_insert_keys k v m x : In x (map fst (map_insert k v m)) <-> x = k \/ In x (map fst m).
+Proof.
+  induction m as [|[k' v'] r IH]; cbn [map_insert]; [cbn; intuition|].
+  destruct (k <? k') eqn:E1; [cbn; intuition|]. destruct (k =? k') eqn:E2.
+  - apply Z.eqb_eq in E2. subst. cbn. intuition.
+  - cbn [map fst In]. rewrite IH. cbn. intuition.
+Qed.
+Lemma map_insert_ksorted k v m : ksorted m -> ksorted (map_insert k v m).
+Proof.
+  unfold ksorted. induction m as [|[k' v'] r IH]; intros S; cbn [map_insert]; [cbn; auto|].
+  cbn in S. destruct S as [F S]. destruct (k <? k') eqn:E1.
+  - apply Z.ltb_lt in E1. cbn. repeat split; auto. constructor; [exact E1|].
+    eapply Forall_impl; [|exact F]. intros; lia.
+  - apply Z.ltb_ge in E1. destruct (k =? k') eqn:E2.
+    + apply Z.eqb_eq in E2. subst. cbn. auto.
+    + apply Z.eqb_neq in E2. cbn. split; [|auto]. rewrite Forall_forall in *. intros y Hy.
+      apply map_insert_keys in Hy. destruct Hy; [lia | auto].
+Qed.
+
+Lemma assoc_app g a b : assoc g (a ++ b) = match assoc g a with Some v => Some v | None => assoc g b end.
+Proof. induction a as [|[k v] r IH]; cbn; [reflexivity|]. destruct (k =? g); auto. Qed.
+
+Lemma fold_insert_assoc g l : forall m,
+  assoc g (fold_left (fun m p => map_insert (fst p) (snd p) m) l m) =
+  match assoc g (rev l) with Some v => Some v | None => assoc g m end.
+Proof.
+  induction l as [|[k v] r IH]; intros m; cbn [fold_left rev]; [reflexivity|].
+  rewrite IH, assoc_app. cbn [fst snd]. destruct (assoc g (rev r)); [reflexivity|].
+  rewrite assoc_map_insert. cbn [assoc]. destruct (k =? g); reflexivity.
+Qed.
+Lemma fold_insert_ksorted l : forall m, ksorted m -> ksorted (fold_left (fun m p => map_insert (fst p) (snd p) m) l m).
+Proof. induction l; intros m S; cbn; [exact S|]. apply IHl. now apply map_insert_ksorted. Qed.
+
+Definition nz (p : Z * Z) : bool := negb (snd p =? 0).
+(* the class assignment as given: the last non-zero assignment of the glyph, 0 when there is none *)
+Definition cd_spec (input : list (Z * Z)) (g : Z) : Z :=
+  match assoc g (rev (filter nz input)) with Some c => c | None => 0 end.
+Definition assoc0 (m : list (Z * Z)) (g : Z) : Z := match assoc g m with Some c => c | None => 0 end.
+
+Lemma cd_items_assoc input g : assoc0 (cd_items input) g = cd_spec input g.
+Proof.
+  unfold assoc0, cd_items, cd_spec. change (fun p : Z * Z => negb (snd p =? 0)) with nz.
+  rewrite fold_insert_assoc. cbn [assoc]. destruct (assoc g (rev (filter nz input))); reflexivity.
+Qed.
+Lemma cd_items_ksorted input : ksorted (cd_items input).
+Proof. unfold cd_items. apply fold_insert_ksorted. cbn. auto. Qed.
+
+Lemma assoc_in g m c : assoc g m = Some c -> In (g, c) m.
+Proof.
+  induction m as [|[k v] r IH]; cbn; [discriminate|]. destruct (k =? g) eqn:E.
+  - apply Z.eqb_eq in E. intros H; inversion H; subst. auto.
+  - auto.
+Qed.
+Lemma assoc_none_keys g m : assoc g m = None -> ~ In g (map fst m).
+Proof.
+  induction m as [|[k v] r IH]; cbn; [tauto|]. destruct (k =? g) eqn:E; [discriminate|].
+  apply Z.eqb_neq in E. intros H [?|?]; [lia | now apply IH].
+Qed.
+Lemma ssorted_last_max l d : ssorted l -> forall x, In x l -> x <= last l d.
+Proof.
+  induction l as [|y r IH]; intros S x H; [destruct H|]. destruct S as [F S].
+  destruct r as [|z r']; [destruct H as [->|[]]; cbn; lia|].
+  change (last (y :: z :: r') d) with (last (z :: r') d).
+  destruct H as [->|H]; [|now apply IH].
+  rewrite Forall_forall in F. specialize (F z (or_introl eq_refl)).
+  specialize (IH S z (or_introl eq_refl)). lia.
+Qed.
+Lemma last_map_fst (m : list (Z * Z)) : fst (last m (0, 0)) = last (map fst m) 0.
+Proof. induction m as [|p [|q r] IH]; cbn in *; auto. Qed.
+
+(* ---- format 1 ---- *)
+Lemma nth_error_map_seq {B} (f : nat -> B) n : forall a i,
+  nth_error (map f (seq a n)) i = if (i <? n)%nat then Some (f (a + i)%nat) else None.
+Proof.
+  induction n as [|n IH]; intros a i; cbn [seq map].
+  - destruct i; reflexivity.
+  - destruct i; cbn [nth_error].
+    + rewrite Nat.add_0_r. reflexivity.
+    + rewrite IH. replace (S a + i)%nat with (a + S i)%nat by lia.
+      change (S i <? S n)%nat with (i <? n)%nat. reflexivity.
+Qed.
+Lemma znth_error_map_zrange (f : Z -> Z) s e g : s <= g ->
+  znth_error (map f (zrange s e)) (g - s) = if g <=? e then Some (f g) else None.
+Proof.
+  intros H. unfold znth_error, zrange. replace (g - s <? 0) with false by (symmetry; apply Z.ltb_ge; lia).
+  rewrite map_map, nth_error_map_seq.
+  destruct (g <=? e) eqn:E.
+  - apply Z.leb_le in E. replace (Z.to_nat (g - s) <? Z.to_nat (e - s + 1))%nat with true
+      by (symmetry; apply Nat.ltb_lt; lia). f_equal. f_equal. lia.
+  - apply Z.leb_gt in E. replace (Z.to_nat (g - s) <? Z.to_nat (e - s + 1))%nat with false
+      by (symmetry; apply Nat.ltb_ge; lia). reflexivity.
+Qed.
+
+Lemma cd1_build_get items g : ksorted items ->
+  cd_get (cd_build_items_fmt true items) g = assoc0 items g.
+Proof.
+  intros S. unfold cd_build_items_fmt, cd_get, cd1_get, assoc0.
+  destruct items as [|[k v] r].
+  - cbn [assoc List.last fst]. destruct (g <? 0) eqn:E; [reflexivity|]. apply Z.ltb_ge in E.
+    rewrite znth_error_map_zrange by lia. destruct (g <=? 0); reflexivity.
+  - set (items := (k, v) :: r) in *. set (lst := fst (last items (0, 0))).
+    assert (B : forall c, assoc g items = Some c -> k <= g <= lst).
+    { intros c H. apply assoc_in in H. assert (I : In g (map fst items)) by (apply (in_map fst) in H; exact H).
+      split.
+      - unfold ksorted in S. cbn in S. destruct S as [F _]. cbn in I. destruct I as [->|I]; [lia|].
+        rewrite Forall_forall in F. specialize (F g I). lia.
+      - unfold lst. rewrite last_map_fst. apply ssorted_last_max; auto. }
+    destruct (g <? k) eqn:E.
+    + apply Z.ltb_lt in E. destruct (assoc g items) eqn:A; [|reflexivity]. specialize (B z eq_refl). lia.
+    + apply Z.ltb_ge in E. rewrite znth_error_map_zrange by lia.
+      destruct (g <=? lst) eqn:E2; [reflexivity|]. apply Z.leb_gt in E2.
+      destruct (assoc g items) eqn:A; [|reflexivity]. specialize (B z eq_refl). lia.
+Qed.
+
+(* ---- format 2 ---- *)
+Lemma class_ranges_go_rfind l : forall s e c g, s <= e ->
+  rfind cls_val (class_ranges_go s e c l) g = if (s <=? g) && (g <=? e) then Some c else assoc g l.
+Proof.
+  induction l as [|[x cls] r IH]; intros s e c g H; cbn [class_ranges_go].
+  - cbn. destruct ((s <=? g) && (g <=? e)); reflexivity.
+  - destruct (are_sequential e x && (c =? cls)) eqn:E.
+    + apply andb_true_iff in E as [E1 E2]. apply are_sequential_spec in E1. apply Z.eqb_eq in E2. subst x cls.
+      rewrite IH by lia. cbn [assoc].
+      destruct (Z.eq_dec g (e + 1)) as [->|ne].
+      * rewrite Z.eqb_refl. replace (s <=? e + 1) with true by (symmetry; apply Z.leb_le; lia).
+        rewrite Z.leb_refl. replace (e + 1 <=? e) with false by (symmetry; apply Z.leb_gt; lia).
+        rewrite andb_false_r. reflexivity.
+      * replace (e + 1 =? g) with false by (symmetry; apply Z.eqb_neq; lia).
+        destruct (s <=? g) eqn:P; cbn [andb]; [|reflexivity].
+        destruct (g <=? e) eqn:Q.
+        -- apply Z.leb_le in Q. replace (g <=? e + 1) with true by (symmetry; apply Z.leb_le; lia). reflexivity.
+        -- apply Z.leb_gt in Q. replace (g <=? e + 1) with false by (symmetry; apply Z.leb_gt; lia). reflexivity.
+    + cbn [rfind]. destruct ((s <=? g) && (g <=? e)) eqn:P; [reflexivity|].
+      rewrite IH by lia. cbn [assoc].
+      destruct (Z.eq_dec x g) as [->|ne].
+      * rewrite Z.eqb_refl, Z.leb_refl. reflexivity.
+      * replace (x =? g) with false by (symmetry; apply Z.eqb_neq; lia).
+        replace ((x <=? g) && (g <=? x)) with false by (symmetry; apply andb_false_iff; rewrite !Z.leb_gt; lia).
+        reflexivity.
+Qed.
+Lemma class_ranges_rfind items g : rfind cls_val (class_ranges items) g = assoc g items.
+Proof.
+  destruct items as [|[x c] r]; [reflexivity|]. cbn [class_ranges]. rewrite class_ranges_go_rfind by lia.
+  cbn [assoc]. destruct (Z.eq_dec x g) as [->|ne].
+  - rewrite Z.eqb_refl, Z.leb_refl. reflexivity.
+  - replace (x =? g) with false by (symmetry; apply Z.eqb_neq; lia).
+    replace ((x <=? g) && (g <=? x)) with false by (symmetry; apply andb_false_iff; rewrite !Z.leb_gt; lia).
+    reflexivity.
+Qed.
+Lemma class_ranges_go_sorted l : forall lo s e c, lo < s -> s <= e -> Forall (Z.lt e) (map fst l) -> ksorted l ->
+  rs_sorted lo (class_ranges_go s e c l).
+Proof.
+  unfold ksorted. induction l as [|[x cls] r IH]; intros lo s e c H1 H2 F S; cbn [class_ranges_go].
+  - cbn. lia.
+  - cbn in F, S. inversion F; subst. destruct S as [Fx S].
+    destruct (are_sequential e x && (c =? cls)).
+    + apply IH; auto; lia.
+    + cbn. repeat split; try lia. apply IH; auto; lia.
+Qed.
+Lemma class_ranges_sorted items : ksorted items -> exists lo, rs_sorted lo (class_ranges items).
+Proof.
+  destruct items as [|[x c] r]; [exists 0; cbn; auto|]. intros S. unfold ksorted in S. cbn in S. destruct S as [F S].
+  exists (x - 1). cbn [class_ranges]. apply class_ranges_go_sorted; auto; lia.
+Qed.
+
+Lemma cd2_get_rfind lo rs g : rs_sorted lo rs ->
+  cd2_get rs g = match rfind cls_val rs g with Some c => c | None => 0 end.
+Proof.
+  intros S. unfold cd2_get. destruct (rfind cls_val rs g) as [c|] eqn:E.
+  - apply rfind_some_nth in E as [i0 [R [C V]]].
+    assert (CL : forall i, 0 <= i < i0 -> (fst (fst (znth rs i (0, 0, 0))) ?= g) = Lt).
+    { intros i Hi. pose proof (rs_sorted_nth_lt lo rs S i i0 ltac:(lia) ltac:(lia)) as L.
+      pose proof (rs_sorted_nth lo rs S i ltac:(lia)) as N.
+      destruct (znth rs i0 (0, 0, 0)) as [[s0 e0] c0]. destruct (znth rs i (0, 0, 0)) as [[s e] c'].
+      cbn in *. apply Z.compare_lt_iff. lia. }
+    assert (CG : forall i, i0 < i < zlen rs -> (fst (fst (znth rs i (0, 0, 0))) ?= g) = Gt).
+    { intros i Hi. pose proof (rs_sorted_nth_lt lo rs S i0 i ltac:(lia) ltac:(lia)) as L.
+      destruct (znth rs i0 (0, 0, 0)) as [[s0 e0] c0]. destruct (znth rs i (0, 0, 0)) as [[s e] c'].
+      cbn in *. apply Z.compare_gt_iff. lia. }
+    assert (IX : match bsearch_by (fun i => fst (fst (znth rs i (0, 0, 0))) ?= g) (zlen rs) with
+                 | BOk ix => ix | BErr ix => sat_sub ix 1 end = i0).
+    { destruct (Z.eq_dec (fst (fst (znth rs i0 (0, 0, 0)))) g) as [e|ne].
+      - rewrite (bsearch_found _ _ i0); auto. rewrite e. apply Z.compare_refl.
+      - rewrite (bsearch_err _ _ (i0 + 1)); [unfold sat_sub; lia | lia | | ].
+        + intros i Hi. destruct (Z.eq_dec i i0) as [->|n2]; [|apply CL; lia].
+          destruct (znth rs i0 (0, 0, 0)) as [[s0 e0] c0]. cbn in *. apply Z.compare_lt_iff. lia.
+        + intros i Hi. apply CG. lia. }
+    rewrite IX. rewrite (znth_error_some rs i0 (0, 0, 0) R).
+    destruct (znth rs i0 (0, 0, 0)) as [[s0 e0] c0]. cbn in V. subst c.
+    replace (s0 <=? g) with true by (symmetry; apply Z.leb_le; lia).
+    replace (g <=? e0) with true by (symmetry; apply Z.leb_le; lia). reflexivity.
+  - set (ix := match bsearch_by _ _ with BOk ix => ix | BErr ix => sat_sub ix 1 end).
+    destruct (Z_lt_le_dec ix 0) as [N|N]; [rewrite znth_error_none by lia; reflexivity|].
+    destruct (Z_lt_le_dec ix (zlen rs)) as [M|M]; [|rewrite znth_error_none by lia; reflexivity].
+    rewrite (znth_error_some rs ix (0, 0, 0)) by lia.
+    pose proof (rfind_none_nth _ _ _ E ix ltac:(lia)) as NN.
+    destruct (znth rs ix (0, 0, 0)) as [[s e] c].
+    destruct ((s <=? g) && (g <=? e)) eqn:P; [|reflexivity].
+    apply andb_true_iff in P as [P Q]. apply Z.leb_le in P, Q. exfalso. apply NN. lia.
+Qed.
+
+Lemma cd2_build_get items g : ksorted items ->
+  cd_get (cd_build_items_fmt false items) g = assoc0 items g.
+Proof.
+  intros S. cbn [cd_build_items_fmt cd_get]. destruct (class_ranges_sorted items S) as [lo L].
+  rewrite (cd2_get_rfind lo _ _ L), class_ranges_rfind. reflexivity.
+Qed.
+
+Lemma cd_get_build_fmt input g fmt1 : cd_get (cd_build_fmt fmt1 input) g = cd_spec input g.
+Proof.
+  unfold cd_build_fmt. rewrite <- cd_items_assoc. pose proof (cd_items_ksorted input).
+  destruct fmt1; [now apply cd1_build_get | now apply cd2_build_get].
+Qed.
+Lemma cd_get_build input g : cd_get (cd_build input) g = cd_spec input g.
+Proof. unfold cd_build. apply (cd_get_build_fmt input g (prefer_format_1 (cd_items input))). Qed.
+Lemma cd_format_choice_irrelevant input g fmt1 : cd_get (cd_build input) g = cd_get (cd_build_fmt fmt1 input) g.
+Proof. now rewrite cd_get_build, cd_get_build_fmt. Qed.
+
+(* when every glyph is given once, the specification is literally the assignment given *)
+Lemma assoc_nodup g c m : NoDup (map fst m) -> In (g, c) m -> assoc g m = Some c.
+Proof.
+  induction m as [|[k v] r IH]; intros N H; [destruct H|]. cbn in N. inversion N; subst. cbn.
+  destruct H as [H|H].
+  - inversion H; subst. now rewrite Z.eqb_refl.
+  - destruct (k =? g) eqn:E; [|auto]. apply Z.eqb_eq in E. subst. exfalso. apply H2.
+    apply (in_map fst) in H. exact H.
+Qed.
+Lemma nodup_keys_filter_rev m : NoDup (map fst m) -> NoDup (map fst (rev (filter nz m))).
+Proof.
+  intros N. rewrite map_rev. apply NoDup_rev. induction m as [|[k v] r IH]; cbn; [constructor|].
+  cbn in N. inversion N; subst. destruct (nz (k, v)); cbn; [|auto]. constructor; [|auto].
+  intros H. apply H1. apply in_map_iff in H as [[k' v'] [E I]]. cbn in E. subst k'.
+  apply filter_In in I as [I _]. apply (in_map fst) in I. exact I.
+Qed.
+Lemma cd_spec_nodup input g c : NoDup (map fst input) -> In (g, c) input -> cd_spec input g = c.
+Proof.
+  intros N H. unfold cd_spec. destruct (Z.eq_dec c 0) as [->|ne].
+  - destruct (assoc g (rev (filter nz input))) eqn:A; [|reflexivity]. exfalso.
+    apply assoc_in in A. apply in_rev in A. apply filter_In in A as [I Z].
+    assert (E : assoc g input = Some 0) by (now apply assoc_nodup).
+    rewrite (assoc_nodup g z input N I) in E. inversion E; subst. unfold nz in Z. cbn in Z. discriminate.
+  - rewrite (assoc_nodup g c); auto; [now apply nodup_keys_filter_rev|].
+    apply -> in_rev. apply filter_In. split; [exact H|]. unfold nz. cbn.
+    apply negb_true_iff. apply Z.eqb_neq. exact ne.
+Qed.
+Lemma cd_spec_unassigned input g : ~ In g (map fst input) -> cd_spec input g = 0.
+Proof.
+  intros H. unfold cd_spec. destruct (assoc g (rev (filter nz input))) eqn:A; [|reflexivity]. exfalso. apply H.
+  apply assoc_in in A. apply in_rev in A. apply filter_In in A as [I _]. apply (in_map fst) in I. exact I.
+Qed.
+
+(* ================================================================================================ *)
+(* well-formed coverage tables and their meaning *)
+Definition rr_ok (r : rrec) : Prop := let '(s, e, ci) := r in 0 <= ci /\ ci + (e - s) <= 65535.
+Definition cov_wf (c : cov) : Prop :=
+  match c with
+  | Cov1 l => ssorted l
+  | Cov2 rs => rs_sorted (-1) rs /\ Forall rr_ok rs
+  end.
+Definition cov_sem (c : cov) (g : Z) : option Z :=
+  match c with Cov1 l => index_of g l | Cov2 rs => rfind cov_val rs g end.
+
+Lemma rfind_ok_bound rs g k : Forall rr_ok rs -> rfind cov_val rs g = Some k -> 0 <= k <= 65535.
+Proof.
+  intros F H. apply rfind_some_nth in H as [i [R [C V]]].
+  rewrite Forall_forall in F. specialize (F _ (znth_In rs i (0, 0, 0) R)).
+  destruct (znth rs i (0, 0, 0)) as [[s e] ci]. cbn in *. lia.
+Qed.
+
+Lemma cov_idx_sem c g : cov_wf c -> cov_idx c g = cov_sem c g.
+Proof.
+  unfold cov_idx. destruct c as [l|rs]; cbn [cov_wf cov_get cov_sem].
+  - intros S. rewrite cov1_get_spec by exact S. destruct (index_of g l); reflexivity.
+  - intros [S F]. rewrite (cov2_get_rfind false (-1)) by exact S.
+    destruct (rfind cov_val rs g) as [k|] eqn:E; [|reflexivity]. cbn [andb].
+    pose proof (rfind_ok_bound _ _ _ F E). unfold wrap16. rewrite Z.mod_small by lia. reflexivity.
+Qed.
+
+Lemma cov_build_wf G : Forall u16 G -> forall f, cov_wf (cov_build_fmt f G).
+Proof.
+  intros F f. pose proof (sort_dedup_sorted G) as S. pose proof (sort_dedup_u16 G F) as U.
+  destruct f; cbn [cov_build_fmt cov_wf]; [|exact S]. split.
+  - apply ranges_for_glyphs_sorted; [exact S|]. eapply Forall_impl; [|exact U]. unfold u16. intros; lia.
+  - rewrite Forall_forall. intros [[s e] ci] H.
+    destruct (In_znth _ _ (0, 0, 0) H) as [i [R Z]].
+    pose proof (rs_sorted_nth (-1) _ (ranges_for_glyphs_sorted _ (-1) S
+                  ltac:(eapply Forall_impl; [|exact U]; unfold u16; intros; lia)) i R) as N.
+    unfold rrec in *. rewrite Z in N. cbn.
+    assert (A : rfind cov_val (ranges_for_glyphs (sort_dedup G)) s = Some (ci + (s - s))).
+    { erewrite rfind_nth; [rewrite Z; reflexivity | | exact R | rewrite Z; lia].
+      apply ranges_for_glyphs_sorted; [exact S|]. eapply Forall_impl; [|exact U]. unfold u16. intros; lia. }
+    assert (B : rfind cov_val (ranges_for_glyphs (sort_dedup G)) e = Some (ci + (e - s))).
+    { erewrite rfind_nth; [rewrite Z; reflexivity | | exact R | rewrite Z; lia].
+      apply ranges_for_glyphs_sorted; [exact S|]. eapply Forall_impl; [|exact U]. unfold u16. intros; lia. }
+    rewrite ranges_for_glyphs_rfind in A, B.
+    pose proof (index_of_sorted_u16_bound _ _ _ S U A). pose proof (index_of_sorted_u16_bound _ _ _ S U B). lia.
+Qed.
+
+(* ---- sublists ---- *)
+Lemma nth_error_firstn_lt {A} (l : list A) : forall n i, (i < n)%nat -> nth_error (firstn n l) i = nth_error l i.
+Proof.
+  induction l as [|x r IH]; intros n i H; [destruct n; destruct i; reflexivity|].
+  destruct n; [lia|]. destruct i; cbn; [reflexivity|]. apply IH. lia.
+Qed.
+Lemma nth_error_firstn_ge {A} (l : list A) : forall n i, (n <= i)%nat -> nth_error (firstn n l) i = None.
+Proof. intros n i H. apply nth_error_None. rewrite firstn_length. lia. Qed.
+Lemma nth_error_skipn' {A} (l : list A) : forall n i, nth_error (skipn n l) i = nth_error l (n + i).
+Proof.
+  induction l as [|x r IH]; intros n i; [destruct n; destruct i; reflexivity|].
+  destruct n; cbn; [reflexivity|]. apply IH.
+Qed.
+Lemma znth_error_sublist {A} (l : list A) a b k : 0 <= a -> a <= k ->
+  znth_error (sublist a b l) (k - a) = if k <? b then znth_error l k else None.
+Proof.
+  intros Ha Hk. unfold znth_error, sublist.
+  replace (k - a <? 0) with false by (symmetry; apply Z.ltb_ge; lia).
+  replace (k <? 0) with false by (symmetry; apply Z.ltb_ge; lia).
+  destruct (k <? b) eqn:E.
+  - apply Z.ltb_lt in E. rewrite nth_error_firstn_lt by lia. rewrite nth_error_skipn'. f_equal. lia.
+  - apply Z.ltb_ge in E. apply nth_error_firstn_ge. lia.
+Qed.
+
+Lemma ssorted_in_tail x l : ssorted l -> forall n, Forall (Z.lt x) l -> Forall (Z.lt x) (skipn n l).
+Proof.
+  intros _ n F. rewrite Forall_forall in *. intros y Hy. apply F.
+  rewrite <- (firstn_skipn n l). apply in_or_app. now right.
+Qed.
+Lemma ssorted_skipn l : forall n, ssorted l -> ssorted (skipn n l).
+Proof. induction l as [|x r IH]; intros n S; destruct n; cbn; auto. destruct S. now apply IH. Qed.
+Lemma ssorted_firstn l : forall n, ssorted l -> ssorted (firstn n l).
+Proof.
+  induction l as [|x r IH]; intros n S; destruct n; cbn; auto. destruct S as [F S]. split; [|now apply IH].
+  rewrite Forall_forall in *. intros y Hy. apply F. rewrite <- (firstn_skipn n r). apply in_or_app. now left.
+Qed.
+Lemma ssorted_sublist a b l : ssorted l -> ssorted (sublist a b l).
+Proof. intros. unfold sublist. now apply ssorted_firstn, ssorted_skipn. Qed.
+
+Lemma index_of_iff l g i : ssorted l -> (index_of g l = Some i <-> 0 <= i < zlen l /\ znth l i 0 = g).
+Proof.
+  intros S. split; [apply index_of_some|]. intros [R N].
+  assert (I : In g l) by (rewrite <- N; now apply znth_In).
+  destruct (index_of_in _ _ I) as [j E]. destruct (index_of_some _ _ _ E) as [Rj Nj].
+  destruct (Z.lt_trichotomy i j) as [L|[->|L]]; [|exact E|].
+  - pose proof (ssorted_znth_lt l i j S ltac:(lia) ltac:(lia)). lia.
+  - pose proof (ssorted_znth_lt l j i S ltac:(lia) ltac:(lia)). lia.
+Qed.
+Lemma zlen_sublist {A} (l : list A) a b : 0 <= a <= b -> b <= zlen l -> zlen (sublist a b l) = b - a.
+Proof. intros. unfold zlen, sublist in *. rewrite firstn_length, skipn_length. lia. Qed.
+Lemma znth_sublist {A} (l : list A) a b i d : 0 <= a -> 0 <= i < b - a -> b <= zlen l ->
+  znth (sublist a b l) i d = znth l (a + i) d.
+Proof.
+  intros Ha Hi Hb.
+  assert (E : znth_error (sublist a b l) (a + i - a) = Some (znth l (a + i) d)).
+  { rewrite znth_error_sublist by lia. replace (a + i <? b) with true by (symmetry; apply Z.ltb_lt; lia).
+    apply znth_error_some. lia. }
+  replace (a + i - a) with i in E by lia.
+  rewrite (znth_error_some _ i d) in E by (rewrite zlen_sublist; lia). now inversion E.
+Qed.
+
+Definition window (a b : Z) (o : option Z) : option Z :=
+  match o with Some k => if (a <=? k) && (k <? b) then Some (k - a) else None | None => None end.
+
+Lemma index_of_sublist l g a b : ssorted l -> 0 <= a <= b -> b <= zlen l ->
+  index_of g (sublist a b l) = window a b (index_of g l).
+Proof.
+  intros S Ha Hb. pose proof (ssorted_sublist a b l S) as S'. unfold window.
+  destruct (index_of g (sublist a b l)) as [i|] eqn:E.
+  - apply (index_of_iff _ _ _ S') in E as [R N]. rewrite zlen_sublist in R by lia.
+    rewrite znth_sublist in N by lia.
+    assert (E2 : index_of g l = Some (a + i)) by (apply index_of_iff; [exact S | split; [lia | exact N]]).
+    rewrite E2. replace (a <=? a + i) with true by (symmetry; apply Z.leb_le; lia).
+    replace (a + i <? b) with true by (symmetry; apply Z.ltb_lt; lia). cbn. f_equal. lia.
+  - destruct (index_of g l) as [k|] eqn:E2; [|reflexivity].
+    destruct ((a <=? k) && (k <? b)) eqn:W; [|reflexivity]. exfalso.
+    apply andb_true_iff in W as [W1 W2]. apply Z.leb_le in W1. apply Z.ltb_lt in W2.
+    apply (index_of_iff _ _ _ S) in E2 as [R N].
+    assert (E3 : index_of g (sublist a b l) = Some (k - a)).
+    { apply index_of_iff; [exact S'|]. rewrite zlen_sublist by lia. split; [lia|].
+      rewrite znth_sublist by lia. replace (a + (k - a)) with k by lia. exact N. }
+    congruence.
+Qed.
+
+(* ---- split_range_record ---- *)
+Lemma split_rr_spec s e ci a b' : s <= e ->
+  match split_range_record (s, e, ci) a b' with
+  | Some (s', e', ci') =>
+      s <= s' /\ s' <= e' /\ e' <= e /\
+      (forall g, s' <= g <= e' <-> s <= g <= e /\ a <= ci + (g - s) <= b') /\
+      (forall g, ci' + (g - s') = ci + (g - s) - a)
+  | None => forall g, s <= g <= e -> ~ (a <= ci + (g - s) <= b')
+  end.
+Proof.
+  intros H. unfold split_range_record, sat_sub.
+  destruct ((b' <? ci) || (ci + (e - s) <? a)) eqn:E.
+  - apply orb_true_iff in E. rewrite !Z.ltb_lt in E. intros g Hg. lia.
+  - apply orb_false_iff in E. rewrite !Z.ltb_ge in E. repeat split; try lia.
+Qed.
+
+Lemma filter_map_split_sorted a b' rs : forall lo, rs_sorted lo rs ->
+  rs_sorted lo (filter_map (fun r => split_range_record r a b') rs).
+Proof.
+  induction rs as [|[[s e] ci] r IH]; intros lo S; cbn [filter_map]; [exact S|].
+  destruct S as [A [B C]]. pose proof (split_rr_spec s e ci a b' B) as P.
+  destruct (split_range_record (s, e, ci) a b') as [[[s' e'] ci']|].
+  - cbn. destruct P as [P1 [P2 [P3 _]]]. repeat split; try lia.
+    apply (rs_sorted_weaken e); [lia | now apply IH].
+  - apply (rs_sorted_weaken e); [lia | now apply IH].
+Qed.
+
+Lemma filter_map_split_rfind a b' rs g : forall lo, rs_sorted lo rs ->
+  rfind cov_val (filter_map (fun r => split_range_record r a b') rs) g = window a (b' + 1) (rfind cov_val rs g).
+Proof.
+  induction rs as [|[[s e] ci] r IH]; intros lo S; cbn [filter_map rfind]; [reflexivity|].
+  destruct S as [A [B C]]. pose proof (split_rr_spec s e ci a b' B) as P.
+  pose proof (filter_map_split_sorted a b' r e C) as ST.
+  destruct ((s <=? g) && (g <=? e)) eqn:IN.
+  - apply andb_true_iff in IN as [I1 I2]. apply Z.leb_le in I1, I2. cbn [window cov_val].
+    destruct (split_range_record (s, e, ci) a b') as [[[s' e'] ci']|].
+    + destruct P as [P1 [P2 [P3 [P4 P5]]]]. cbn [rfind].
+      destruct ((s' <=? g) && (g <=? e')) eqn:IN2.
+      * apply andb_true_iff in IN2 as [J1 J2]. apply Z.leb_le in J1, J2.
+        destruct (P4 g) as [Q _]. specialize (Q ltac:(lia)).
+        replace (a <=? ci + (g - s)) with true by (symmetry; apply Z.leb_le; lia).
+        replace (ci + (g - s) <? b' + 1) with true by (symmetry; apply Z.ltb_lt; lia).
+        cbn [andb cov_val]. f_equal. apply P5.
+      * rewrite (rfind_below _ e _ g ST) by lia.
+        destruct ((a <=? ci + (g - s)) && (ci + (g - s) <? b' + 1)) eqn:W; [|reflexivity]. exfalso.
+        apply andb_true_iff in W as [W1 W2]. apply Z.leb_le in W1. apply Z.ltb_lt in W2.
+        destruct (P4 g) as [_ Q]. specialize (Q ltac:(lia)).
+        apply andb_false_iff in IN2. rewrite !Z.leb_gt in IN2. lia.
+    + rewrite (rfind_below _ e _ g ST) by lia.
+      destruct ((a <=? ci + (g - s)) && (ci + (g - s) <? b' + 1)) eqn:W; [|reflexivity]. exfalso.
+      apply andb_true_iff in W as [W1 W2]. apply Z.leb_le in W1. apply Z.ltb_lt in W2.
+      apply (P g); lia.
+  - destruct (split_range_record (s, e, ci) a b') as [[[s' e'] ci']|]; [|now apply (IH e)].
+    destruct P as [P1 [P2 [P3 _]]]. cbn [rfind].
+    replace ((s' <=? g) && (g <=? e')) with false; [now apply (IH e)|].
+    symmetry. apply andb_false_iff in IN. rewrite !Z.leb_gt in IN. apply andb_false_iff. rewrite !Z.leb_gt. lia.
+Qed.
+
+Lemma filter_map_split_ok a b' rs lo : 0 <= a -> rs_sorted lo rs -> Forall rr_ok rs ->
+  Forall rr_ok (filter_map (fun r => split_range_record r a b') rs).
+Proof.
+  intros Ha. revert lo. induction rs as [|[[s e] ci] r IH]; intros lo S F; cbn [filter_map]; [constructor|].
+  destruct S as [A [B C]]. inversion F; subst. pose proof (split_rr_spec s e ci a b' B) as P.
+  destruct (split_range_record (s, e, ci) a b') as [[[s' e'] ci']|]; [|now apply (IH e)].
+  constructor; [|now apply (IH e)]. destruct P as [P1 [P2 [P3 [P4 P5]]]]. cbn in H1 |- *.
+  pose proof (P5 s'). pose proof (P5 e'). destruct (P4 s') as [Q _]. specialize (Q ltac:(lia)). lia.
+Qed.
+
+(* splitting.rs split_coverage: meaning of the result *)
+Lemma split_coverage_spec c a b c' : cov_wf c -> 0 <= a ->
+  split_coverage c a b = Some c' ->
+  cov_wf c' /\ forall g, cov_sem c' g = window a b (cov_sem c g).
+Proof.
+  intros W Ha. unfold split_coverage. destruct (b <? a) eqn:E; [discriminate|]. apply Z.ltb_ge in E.
+  destruct c as [l|rs].
+  - destruct (zlen l <? b) eqn:E2; [discriminate|]. apply Z.ltb_ge in E2. intros H; inversion H; subst.
+    cbn [cov_wf cov_sem] in *. split; [now apply ssorted_sublist|]. intros g. apply index_of_sublist; auto; lia.
+  - destruct (b =? 0) eqn:E2; [discriminate|]. intros H; inversion H; subst. destruct W as [S F].
+    cbn [cov_wf cov_sem]. split; [split|].
+    + now apply filter_map_split_sorted.
+    + now apply (filter_map_split_ok a (b - 1) rs (-1)).
+    + intros g. rewrite (filter_map_split_rfind a (b - 1) rs g (-1) S). f_equal. lia.
+Qed.
+
+(* ================================================================================================ *)
+(* split_pair_pos_format_1 preserves the lookup *)
+Fixpoint chain (prev : Z) (sps : list Z) (last : Z) : Prop :=
+  match sps with [] => prev = last | nx :: r => prev <= nx /\ chain nx r last end.
+Lemma chain_le sps : forall prev last, chain prev sps last -> prev <= last.
+Proof. induction sps as [|nx r IH]; intros prev last H; cbn in H; [lia|]. destruct H as [A B]. specialize (IH _ _ B). lia. Qed.
+
+Section PP1.
+Context {V : Type}.
+Definition pp1_sem (t : pp1 V) (lo hi : Z) (g1 g2 : Z) : option V :=
+  match cov_sem (pp1_cov t) g1 with
+  | Some k => if (lo <=? k) && (k <? hi) then
+                match znth_error (pp1_sets t) k with Some ps => pairset_find ps g2 | None => None end
+              else None
+  | None => None
+  end.
+
+Lemma pp1_lookup_sem (t : pp1 V) g1 g2 : cov_wf (pp1_cov t) ->
+  pp1_lookup t g1 g2 =
+  match cov_sem (pp1_cov t) g1 with
+  | Some k => match znth_error (pp1_sets t) k with Some ps => pairset_find ps g2 | None => None end
+  | None => None
+  end.
+Proof. intros W. unfold pp1_lookup. now rewrite cov_idx_sem. Qed.
+
+Lemma cov_sem_nonneg c g k : cov_wf c -> cov_sem c g = Some k -> 0 <= k.
+Proof.
+  destruct c as [l|rs]; cbn; intros W H.
+  - apply index_of_some in H. lia.
+  - destruct W as [_ F]. pose proof (rfind_ok_bound _ _ _ F H). lia.
+Qed.
+
+Lemma split_off_ppf1_sem (t p : pp1 V) a b g1 g2 : cov_wf (pp1_cov t) -> 0 <= a ->
+  split_off_ppf1 t a b = Some p -> pp1_lookup p g1 g2 = pp1_sem t a b g1 g2.
+Proof.
+  intros W Ha. unfold split_off_ppf1. destruct (split_coverage (pp1_cov t) a b) as [c'|] eqn:E; [|discriminate].
+  intros H; inversion H; subst. destruct (split_coverage_spec _ _ _ _ W Ha E) as [W' SEM].
+  rewrite pp1_lookup_sem by exact W'. cbn [pp1_cov pp1_sets]. rewrite SEM. unfold pp1_sem, window.
+  destruct (cov_sem (pp1_cov t) g1) as [k|]; [|reflexivity].
+  destruct ((a <=? k) && (k <? b)) eqn:Wn; [|reflexivity].
+  apply andb_true_iff in Wn as [W1 W2]. apply Z.leb_le in W1. pose proof W2 as W2'. apply Z.ltb_lt in W2'.
+  rewrite znth_error_sublist by lia. now rewrite W2.
+Qed.
+
+Lemma split_pp1_loop (t : pp1 V) g1 g2 last : cov_wf (pp1_cov t) ->
+  forall sps prev ps, 0 <= prev -> chain prev sps last ->
+  split_loop (split_off_ppf1 t) prev sps = Some ps ->
+  first_some (fun p => pp1_lookup p g1 g2) ps = pp1_sem t prev last g1 g2.
+Proof.
+  intros W. induction sps as [|nx r IH]; intros prev ps Hp C H; cbn [split_loop] in H.
+  - inversion H; subst. cbn in C. subst. cbn. unfold pp1_sem.
+    destruct (cov_sem (pp1_cov t) g1) as [k|]; [|reflexivity].
+    replace ((last <=? k) && (k <? last)) with false; [reflexivity|].
+    symmetry. apply andb_false_iff. rewrite Z.leb_gt, Z.ltb_ge. lia.
+  - destruct C as [C1 C2]. destruct (split_off_ppf1 t prev nx) as [p|] eqn:E; [|discriminate].
+    destruct (split_loop (split_off_ppf1 t) nx r) as [ps'|] eqn:E2; [|discriminate]. inversion H; subst.
+    cbn [first_some]. rewrite (split_off_ppf1_sem t p prev nx g1 g2 W Hp E).
+    rewrite (IH nx ps' ltac:(lia) C2 eq_refl). pose proof (chain_le _ _ _ C2) as L.
+    unfold pp1_sem. destruct (cov_sem (pp1_cov t) g1) as [k|]; [|reflexivity].
+    destruct (Z_lt_le_dec k prev); [|destruct (Z_lt_le_dec k nx)].
+    + replace (prev <=? k) with false by (symmetry; apply Z.leb_gt; lia).
+      replace (nx <=? k) with false by (symmetry; apply Z.leb_gt; lia). reflexivity.
+    + replace (prev <=? k) with true by (symmetry; apply Z.leb_le; lia).
+      replace (k <? nx) with true by (symmetry; apply Z.ltb_lt; lia).
+      replace (nx <=? k) with false by (symmetry; apply Z.leb_gt; lia).
+      replace (k <? last) with true by (symmetry; apply Z.ltb_lt; lia). cbn [andb].
+      destruct (znth_error (pp1_sets t) k) as [s|]; [|reflexivity]. destruct (pairset_find s g2); reflexivity.
+    + replace (k <? nx) with false by (symmetry; apply Z.ltb_ge; lia). rewrite andb_false_r.
+      replace (prev <=? k) with true by (symmetry; apply Z.leb_le; lia).
+      replace (nx <=? k) with true by (symmetry; apply Z.leb_le; lia). reflexivity.
+Qed.
+
+Lemma split_pp1_preserves_lemma (t : pp1 V) sps ps g1 g2 : cov_wf (pp1_cov t) ->
+  chain 0 sps (zlen (pp1_sets t)) -> split_pp1 sps t = Some ps ->
+  first_some (fun p => pp1_lookup p g1 g2) ps = pp1_lookup t g1 g2.
+Proof.
+  intros W C H. unfold split_pp1 in H. rewrite (split_pp1_loop t g1 g2 _ W sps 0 ps ltac:(lia) C H).
+  rewrite pp1_lookup_sem by exact W. unfold pp1_sem.
+  destruct (cov_sem (pp1_cov t) g1) as [k|] eqn:E; [|reflexivity].
+  pose proof (cov_sem_nonneg _ _ _ W E). replace (0 <=? k) with true by (symmetry; apply Z.leb_le; lia). cbn [andb].
+  destruct (k <? zlen (pp1_sets t)) eqn:L; [reflexivity|]. apply Z.ltb_ge in L.
+  rewrite znth_error_none by lia. reflexivity.
+Qed.
+End PP1.
